@@ -11,7 +11,7 @@ namespace vm {
 enum ArchiveId : int { A_MSGPACK = 0, A_JSON, A_XML, A_CSV, A_COUNT };
 inline const char* ArchiveName(int a) { static const char* n[] = { "msgpack", "json", "xml", "csv" }; return n[a]; }
 
-struct IoIn { const std::string* mem = nullptr; std::istream* stream = nullptr; };
+struct IoIn { const std::string* mem = nullptr; std::istream* stream = nullptr; const std::string_view* view = nullptr; };
 struct IoOut { std::string* mem = nullptr; std::ostream* stream = nullptr; };
 
 class ArchiveOps
